@@ -376,7 +376,14 @@ func handoverCase(c *h.Case) {
 	defer rmPerturb()
 
 	mk := func(id string, runID string) (*h.Peer, error) {
-		return h.DialPeer(h.PeerOpts{ServerPort: srv.Cfg.BindPort, TCPMux: true, Token: token, RunID: runID, AutoWork: true, PoolCount: 1,
+		// The first session asks for no pooled work connections: the scripted "old client" stays alive
+		// after it was replaced, and a pooled offer of its own, delayed past the re-login, would
+		// legitimately be attached to the new session of the same run id and answer as S1.
+		pool := 1
+		if runID == "" {
+			pool = 0
+		}
+		return h.DialPeer(h.PeerOpts{ServerPort: srv.Cfg.BindPort, TCPMux: true, Token: token, RunID: runID, AutoWork: true, PoolCount: pool,
 			WorkHandler: h.IdentBackend(id, token, false, false, nil)})
 	}
 	old, err := mk("S1", "")
